@@ -196,6 +196,14 @@ def run_as(c, o):
     nyh = m.shape[1]
     fem = sd["fem_model_type"]
     tags = [fem, "symmetry"] + (["with_wave"] if sd["with_wave"] else []) + (["fuel"] if sd["distributed_fuel_weight"] else []) + (["relief"] if sd["struct_weight_relief"] else []) + ["npm=%d" % npm]
+    if npm:
+        # share of each point load that the inverse-distance^10 smearing puts on the nodes of the other half in the full model
+        ynodes = zoo.get(F, "wing.nodes")[:, 1]
+        cross = 0.0
+        for pl in c["pm_loc"]:
+            w = 1.0 / ((pl[1] - ynodes) ** 10 + 1e-10)
+            cross = max(cross, float(w[ynodes > 1e-12].sum() / w.sum()))
+        tags.append("pm_cross=%.3e" % cross)
     o.tags = tags
     R = 1e-7  # through the coupled solver (atol 1e-10 on the residual norm)
     g = lambda P, n: zoo.get(P, "AS_point_0." + n)  # noqa: E731
